@@ -18,6 +18,7 @@ CONSTANTS
   Resources = {"at", "tcc"}
   Bystanders = {FALSE}
   MaxLoss = 2
+  MaxAnnFail = 0
   Shifts = {0}
 INVARIANTS Dump
 CHECK_DEADLOCK FALSE
